@@ -50,7 +50,7 @@ EMPTY_DECOS = [("sp-only", " "), ("plus-only", "+"), ("nbsp-only", "\xa0")]
 
 
 def positions(size, deep):
-    ps = ["", 0, 1, size - 1, size, size + 5, 99999]
+    ps = ["", 0, 1, size - 1, size, size + 5, 99999, 2 ** 64 - 1]      # (the last: 20 digits)
     if deep:
         ps += [size // 2, size - 2, size + 1, 2 ** 63, 10 ** 30]
     out = []
@@ -362,8 +362,14 @@ class C27(Check):
         try:
             root = T + "/root"
             sizes = self.sizes(tier) + self.big_sizes(tier)
-            for s in sizes:
-                wf.mkfile("%s/f%d.bin" % (root, s), content_for(s))
+            for k, s in enumerate(sizes):
+                if k % 2:
+                    # every second file is a symbolic link to a regular file inside the root: size, dates and content
+                    # are the target's
+                    wf.mkfile("%s/real/f%d.bin" % (root, s), content_for(s))
+                    os.symlink("real/f%d.bin" % s, "%s/f%d.bin" % (root, s))
+                else:
+                    wf.mkfile("%s/f%d.bin" % (root, s), content_for(s))
             app = Application([("/s/(.*)", StaticFileHandler, {"path": root})])
             with wf.Client() as cl:
                 etags = {}
